@@ -34,6 +34,7 @@ Done(t) == /\ t \in Threads /\ holding[t]
 \* the reporting contract of the executor: "work happened since my last report"
 Report(t, did) == /\ t \in Threads /\ ~holding[t] /\ did = dirty[t]
                   /\ dirty' = [dirty EXCEPT ![t] = FALSE] /\ UNCHANGED <<n, inbox, holding, observed>>
+\* (reports are optional in a log: a thread that took work may observe only after it is done)
 Observe(t) == /\ t \in Threads /\ ~Outstanding            \* NoEarlyAnnounce
               /\ observed' = [observed EXCEPT ![t] = TRUE] /\ UNCHANGED <<n, inbox, holding, dirty>>
 Returned == \A t \in Threads : observed[t]
